@@ -272,4 +272,5 @@ func TestVX_C06(t *testing.T) {
 		c06eval(r, c)
 		r.Sample(c)
 	})
+	lifetimeCases(r, "seal", func() bool { n++; return vx.MineIdx(n) })
 }
